@@ -236,8 +236,10 @@ def expected_record(d, now, multicast):
 def oracle(m, ps, exc, focus):
     """C01 and C14 as predicates over the implementation's output."""
     from props.c02 import observe as dec_observe, strict_view_of_impl
+    # add_answer_at_time(record, now) silently leaves out a record that has expired by `now`: it is never written
+    kept = [r for r, now in m['answers'] if now == 0 or r['created'] + 1000 * r['ttl'] > now]
     longest = max((max((len(l.encode()) for l in n.rstrip('.').split('.')), default=0)
-                   for d in m['questions'] + [r for r, _ in m['answers']] + m['authorities'] + m['additionals']
+                   for d in m['questions'] + kept + m['authorities'] + m['additionals']
                    for n in relevant_names(d)), default=0)
     if exc == 'NamePartTooLongException':
         return None if longest > 63 else "NamePartTooLongException although every label fits 63 bytes"
